@@ -278,13 +278,16 @@ def c03(H):
 
 # ----------------------------------------------------------------------------- C04 / C07 shared: pool never broken
 def spurious_respawn(H):
-    """The manager re-spawns (and warns 'A worker stopped while some jobs were given') only when work was owed when a worker
-    left: more such warnings than worker exits with unresolved futures means the pending/running accounting is off."""
-    warns = sum(1 for x in H.warnings if "A worker stopped while some jobs" in x)
-    owed = sum(1 for st_, k, d in H.events if k == "exit" and (d.get("pending") or 0) > 0)
-    if warns > owed:
-        return [{"kind": "spurious_respawn", "detail": f"{warns} respawn warnings but only {owed} worker exits happened while a future was "
-                 f"unresolved (running/pending accounting inconsistent)", "where": "respawn"}]
+    """The manager re-spawns (and warns 'A worker stopped while some jobs were given') only when work is owed: at the moment
+    of each such warning - it is issued right where the decision is taken - some future must be unresolved. (The moment of
+    the worker's own exit is not the moment of the decision: a task submitted between the exit announcement and its
+    processing is owed a worker.)"""
+    if any(o["op"][0] == "cancel" for o in H.ops):
+        return []        # (a cancel() between the manager's reading of the counters and the warning is legal)
+    bad = [(st_, n) for st_, msg, n in getattr(H, "warn_log", []) if "A worker stopped while some jobs" in msg and n == 0]
+    if bad:
+        return [{"kind": "spurious_respawn", "detail": f"respawn warning(s) at steps {[b[0] for b in bad]} while no future was unresolved "
+                 f"(running/pending accounting inconsistent)", "where": "respawn"}]
     return []
 
 
